@@ -5928,6 +5928,11 @@ class CodegenCtx:
         # Normally, though, just generate a jump to the next jpto
         elif not from_end:
             if transition.target in self.dfa.states:
+                if not needs_early_advance and not ProgramData.do(ProgramFlag.STRICT_DONE_TOKEN_GENERATION):
+                    # a break may have sent us straight to the end of the program: same as targeting it directly
+                    for end_state in dict.fromkeys(sub.refers_to.end_state for act in transition.actions for sub in act.all_subactions() if isinstance(sub, BreakAction)):
+                        if end_state in self.dfa.accepting_states and all(x.error_handling for x in end_state.transitions):
+                            transition_body.add(f"if (state->state == {self.dfa.states.index(end_state)}) return {self.program_name.upper()}_DONE;")
                 if ProgramData.do(ProgramFlag.INDIRECT_START_PTR):
                     transition_body.add(f"if ({'++' if not needs_early_advance else ''}(*start) == end) return {self.program_name.upper()}_OK;");
                     transition_body.add("inval = **start;")
